@@ -21,6 +21,7 @@ import (
 	"github.com/versity/versitygw/metrics"
 	"github.com/versity/versitygw/s3api/controllers"
 	"github.com/versity/versitygw/s3api/middlewares"
+	"github.com/versity/versitygw/s3err"
 	"github.com/versity/versitygw/s3event"
 	"github.com/versity/versitygw/s3log"
 )
@@ -105,4 +106,11 @@ func (sa *S3ApiRouter) Init(app *fiber.App, be backend.Backend, iam auth.IAMServ
 	// PutObjectTagging action
 	// PutObjectAcl action
 	app.Put("/:bucket/:key/*", s3ApiController.PutActions)
+
+	// Anything no route matched (OPTIONS, unknown admin paths, POST /, ...):
+	// answer with an S3 error document instead of the router's text reply
+	app.Use(func(ctx *fiber.Ctx) error {
+		return controllers.SendResponse(ctx, s3err.GetAPIError(s3err.ErrMethodNotAllowed),
+			&controllers.MetaOpts{Logger: logger, MetricsMng: mm})
+	})
 }
